@@ -171,8 +171,12 @@ def r2(ctx, T, R, tt, rt):
                 case_ok = post in (None, "upper") and pre in (None, "upper")
             else:
                 case_ok = post is None and pre is None
-            ok = e_ok and d_ok and case_ok
-            detail = f"encoder {_callee(ctx, T, te)} (required {enc}) on data={e_ok}; decoder {_callee(ctx, R, re_)} (required {dec})={d_ok}; case handling post={post} pre={pre} ok={case_ok}"
+            pad_ok = True
+            if step in ("base64", "base64url"):
+                # Cobalt Strike emits these without '=' padding: the decoder input must be data + b"==" (>= 2 pad bytes)
+                pad_ok = isinstance(ra, ast.BinOp) and isinstance(ra.op, ast.Add) and dotted(ra.left) == "data" and isinstance(_c(ra.right), bytes) and set(_c(ra.right)) == {0x3D} and len(_c(ra.right)) >= 2
+            ok = e_ok and d_ok and case_ok and pad_ok
+            detail = f"encoder {_callee(ctx, T, te)} (required {enc}) on data={e_ok}; decoder {_callee(ctx, R, re_)} (required {dec})={d_ok}; case handling post={post} pre={pre} ok={case_ok}; padding repaired before decoding={pad_ok}"
         ctx.ob("R2", "AGREE", T, f"pair {step}", ok, detail, tt[step][0])
     # netbios codec offsets: default offset shared
     enc, dec = ctx.repo.func("utils.netbios_encode"), ctx.repo.func("utils.netbios_decode")
